@@ -62,6 +62,8 @@ class Ctx:
         self.nontrivial = set()
         self.samples = []
         self.violations = []     # dicts
+        self.truncated = False   # the harness stopped early after calls that did not return
+        self.unreproduced = 0
         self.known = []          # (finding, violation)
         self.notes = []
         self.exhaustive = False
@@ -194,7 +196,11 @@ def hgen(ctx, prop, out, seed=None, tier=None, base=None):
 
 
 def hexec(ctx, prop, vectors, trace, timeout=3600, env=None):
-    harness(ctx, ["exec", prop, vectors, trace], timeout=timeout, env=env)
+    out = harness(ctx, ["exec", prop, vectors, trace], timeout=timeout, env=env)
+    if "TRUNCATED:" in out:
+        # calls that did not return: the run was cut short; without a confirmed violation this is a broken run
+        ctx.truncated = True
+        log("  " + [l for l in out.splitlines() if l.startswith("TRUNCATED:")][0])
     return trace
 
 
@@ -569,6 +575,7 @@ def finish(ctx, level="model_checking", rule="", confirm=None):
                 log("  replay of a violating case could not run: %s" % e)
                 again = True
             if not again:
+                ctx.unreproduced += 1
                 ctx.notes.append("unreproduced: %s / %s" % sig)
                 log("  NOTE unreproduced on replay (not reported): %s %s" % sig)
                 continue
@@ -590,6 +597,12 @@ def finish(ctx, level="model_checking", rule="", confirm=None):
         % (ctx.prop, ctx.tier, ctx.seed, ctx.states, ctx.transitions, ctx.judged, total_unlisted,
            len(ctx.known), wall))
     shutil.rmtree(ctx.run, ignore_errors=True)
+    if not reported and (ctx.truncated or ctx.unreproduced):
+        # never a pass and never a violation: a run that was cut short, or a rejected observation that a fresh
+        # execution does not show again, decides nothing
+        print("CHECK-BROKEN property=%s: %s" % (ctx.prop, "run cut short after calls that did not return" if ctx.truncated
+              else "%d rejected observation(s) did not reproduce on replay" % ctx.unreproduced), flush=True)
+        sys.exit(2)
     sys.exit(1 if reported else 0)
 
 
